@@ -69,12 +69,14 @@ func c02DrawBatch(t *rapid.T) c02Batch {
 		return c02Batch{class, b.Encode()}
 	case "both-mismatch":
 		// header pair consistent with each other (lastOffsetDelta == numRecords-1) but not with the body
-		k := rapid.SampledFrom([]int{n + 1, n + 7, n + 1000, n - 1}).Draw(t, "k")
+		k := rapid.SampledFrom([]int{n + 1, n + 7, n + 1000, n - 1, 1 << 31, 1<<31 - 1}).Draw(t, "k")
 		if k < 1 {
 			k = n + 1
 		}
-		b.NumRecords = int32(k)
-		b.LastOffsetDelta = int32(k - 1)
+		// k = 2^31: numRecords wraps to MinInt32 while lastOffsetDelta = MaxInt32, the pair
+		// that satisfies a 32-bit "count == delta+1" comparison by overflow
+		b.NumRecords = int32(uint32(k))
+		b.LastOffsetDelta = int32(uint32(k - 1))
 		return c02Batch{class, b.Encode()}
 	case "concat":
 		out := b.Encode()
@@ -217,7 +219,12 @@ func TestVF_C02_Offsets(t *testing.T) {
 			}
 			b := c02DrawBatch(t)
 			span, kind, known := c02Span(b.Bytes)
-			if knownLOD && kind == "header-disagrees" {
+			// the listed finding is about a header pair that is self-consistent (the broker's
+			// own validation accepts it) but disagrees with the body; an inconsistent pair
+			// (e.g. the int32-overflow pair MaxInt32 / MinInt32) is NOT part of it
+			hdr, herr := vfkit.DecodeBatchHeader(b.Bytes)
+			selfConsistent := herr == nil && hdr.LastOffsetDelta >= 0 && int64(hdr.NumRecords) == int64(hdr.LastOffsetDelta)+1
+			if knownLOD && kind == "header-disagrees" && selfConsistent {
 				st.ExcludedCase("C02-header-count-trusted")
 				b = c02Batch{"wellformed", vfkit.SimpleBatch(0, 1_700_000_000_000, 2, fmt.Sprintf("sub%d", i))}
 				span, kind, known = c02Span(b.Bytes)
